@@ -198,6 +198,14 @@ def main(tier, seed):
         if n_viol == 0:
             v.violation(dict(property=PROP, broken='proof obligations do not check', info=info), tag='proof', no_input=True)
             n_viol += 1
+    import extract_consts
+    ci = extract_consts.write_and_check(PROP)
+    if ci['ok'] is False and n_viol == 0:
+        v.violation(dict(property=PROP, broken='constants regenerated from the source (schema keys, type values, priority words and '
+                                               'values) no longer equal those the model and the theorems were written against, and no '
+                                               'run of this check misbehaved', obligations=ci['obligations'], extracted=ci['extracted'],
+                         log=ci['log']), tag='consts', no_input=True)
+        n_viol += 1
     cov = dict(
         obligations=info.get('obligations', 0), discharged=info.get('discharged', 0),
         checker_cmd='cd /verif/coq && make && coqc props/C11_Props.v (Print Assumptions); coqc gen/C11/cases_*.v',
@@ -214,6 +222,7 @@ def main(tier, seed):
         samples=[cases[1][1].get('yaml', '')[:600], cases[3][1].get('yaml', '')[:600]],
         known_findings_reported=list(v.known),
         source_blobs=repo_blob_ids(['sismic/io/yaml.py', 'sismic/io/datadict.py', 'sismic/model/elements.py']),
+        regenerated_constants=dict(obligations=ci['obligations'], ok=ci['ok'], notes=ci['notes']),
         proof_info={k: info.get(k) for k in ('build_ok', 'ok', 'closed', 'axioms', 'forbidden_tokens', 'note', 'coqchk')})
     write_evidence(PROP, tier, seed, t0, cov,
                    ['valid = DESIGN.md section 6 (C11): composite states have children, optional strings absent or non-empty, '
